@@ -5,10 +5,12 @@
    A + blank line + B are the tables of A followed by the tables of B moved by len A + 1
    (C07_tables_concat): the block loop starts B on exactly the rows it would see alone.  No rule call leaks container context:
    blkIndent, listIndent and the level come back from every rule call whatever its outcome
-   (C07_rule_restores_context, C07_rule_restores_level; the tables: C01).  That the full
+   (C07_rule_restores_context, C07_rule_restores_level), and the line tables, rewritten in place by
+   the container rules, are back as they were after every block-loop call and at the end of the parse
+   (C07_tokenize_restores_tables, C07_block_parse_restores_tables).  That the full
    concatenation law follows is decided on the implementation and through the correspondence.  Only statements and [exact]. *)
 From MD Require Import Base.Py Base.Str Base.Opt Model.Token Model.Utils Model.StateBlock Model.Block
-     Lemmas.BlockLemmas Lemmas.ScanLemmas.
+     Lemmas.BlockLemmas Lemmas.MapWhole Lemmas.NoRaise Lemmas.TablesRestore Lemmas.ScanLemmas.
 
 Theorem C07_line_scan_splits :
   forall n a s pos b, scan_loop n s pos (a ++ b) = scan_loop n (scan_loop n s pos a) (pos + len a) b.
@@ -76,3 +78,36 @@ Proof.
   exact (proj1 (apply_rule_ext cfg rf cf _ _ (tokenize_ok cfg rf cf d) (terminated_ok cfg rf cf) _ _ _ _ _ _ _ H)).
 Qed.
 Print Assumptions C07_rule_restores_level.
+
+(* ---- the indentation bookkeeping does not leak either ----
+   Block quotes and list items rewrite bMarks / tShift / sCount / bsCount in place for the lines
+   they contain.  Every call of the block loop, at any depth, on any state whose tables are well
+   formed (RI: rows inside the source; TI / CI: the table invariants that fresh tables satisfy and
+   every rule keeps), returns with source, lineMax and all five tables exactly as it found them. *)
+Theorem C07_tokenize_restores_tables :
+  forall cfg rf cf N d st a b st',
+    term_names_ok cfg -> mem_str nm_paragraph (c_rules cfg) = true ->
+    RI N st -> TI st -> CI st -> 0 <= a -> a < b -> b <= b_lineMax st ->
+    tokenize cfg rf cf d st a b = Ok st' ->
+    (b_src st' = b_src st /\ b_bMarks st' = b_bMarks st /\ b_eMarks st' = b_eMarks st /\ b_tShift st' = b_tShift st
+     /\ b_sCount st' = b_sCount st /\ b_bsCount st' = b_bsCount st /\ b_lineMax st' = b_lineMax st)
+    /\ a <= b_line st' <= b_lineMax st.
+Proof. exact tokenize_tables. Qed.
+Print Assumptions C07_tokenize_restores_tables.
+
+(* the whole block parser: what it leaves in the tables is what the line scanner put there *)
+Theorem C07_block_parse_restores_tables :
+  forall cfg rf cf src env toks st,
+    term_names_ok cfg -> mem_str nm_paragraph (c_rules cfg) = true ->
+    block_parse cfg rf cf src env toks = Ok st ->
+    let s0 := state_init src env toks in
+    b_src st = b_src s0 /\ b_bMarks st = b_bMarks s0 /\ b_eMarks st = b_eMarks s0 /\ b_tShift st = b_tShift s0
+    /\ b_sCount st = b_sCount s0 /\ b_bsCount st = b_bsCount s0 /\ b_lineMax st = b_lineMax s0.
+Proof. exact block_parse_tables. Qed.
+Print Assumptions C07_block_parse_restores_tables.
+
+(* the hypotheses are met by the tables of every source *)
+Theorem C07_fresh_tables_well_formed :
+  forall src env toks, let s0 := state_init src env toks in RI (b_lineMax s0) s0 /\ TI s0 /\ CI s0.
+Proof. exact (fun src env toks => conj (state_init_RI src env toks) (conj (state_init_TI src env toks) (state_init_CI src env toks))). Qed.
+Print Assumptions C07_fresh_tables_well_formed.
